@@ -114,6 +114,14 @@ def _validate(ck, exe, lines, owners, meta, depth=0, cfg="TraceStream.cfg", pref
     clause = {"upw": "reservation-rule" if cfg == "TraceStream.cfg" else "max-capacity-record-refused-on-drained-queue", "write": "race-or-retired-access", "read": "read-not-next-committed-record-or-torn",
               "shrink": "shrink-rule", "drained": "committed-record-never-delivered", "upr": "race-or-retired-access",
               "fc": "race-or-retired-access"}.get(bad["k"], bad["k"])
+    if bad["k"] == "upw" and cfg != "TraceStream.cfg":
+        # a record that fits the configured maximum but not the largest power-of-two node allowed by a maximum that is
+        # not a power of two is a different (recorded) case than a refused record that an allocatable node could hold
+        p2 = 1
+        while p2 * 2 <= mx:
+            p2 *= 2
+        if p2 != mx and bad["n"] > p2:
+            clause = "record-between-largest-power-of-two-node-and-non-power-of-two-max-refused"
     sc = f"uinit cap={cap} max={mx}\nufuzz steps={STEPS[0]} seed={seed}\nend\n"
     rc, evs = spsc.run(exe, sc)
     cl = spsc.ucontract_lines(evs + ([{"e": "Fault"}] if rc == 4 else []))
